@@ -91,6 +91,9 @@ namespace pika::when_all_vector_detail {
             void set_error(Error&& error) && noexcept
             {
                 auto r = std::move(*this);
+#if defined(PIKA_VERIF)
+                PIKA_VERIF_POINT(341, &r.op_state);
+#endif
                 if (!r.op_state.set_stopped_error_called.exchange(true))
                 {
                     try
@@ -110,6 +113,9 @@ namespace pika::when_all_vector_detail {
             void set_stopped() && noexcept
             {
                 auto r = std::move(*this);
+#if defined(PIKA_VERIF)
+                PIKA_VERIF_POINT(341, &r.op_state);
+#endif
                 r.op_state.set_stopped_error_called = true;
                 r.op_state.finish();
             };
@@ -118,6 +124,9 @@ namespace pika::when_all_vector_detail {
             void set_value(Ts&&... ts) && noexcept
             {
                 auto r = std::move(*this);
+#if defined(PIKA_VERIF)
+                PIKA_VERIF_POINT(341, &r.op_state);
+#endif
                 if (!r.op_state.set_stopped_error_called)
                 {
                     try
@@ -216,6 +225,9 @@ namespace pika::when_all_vector_detail {
 
         void finish() noexcept
         {
+#if defined(PIKA_VERIF)
+            PIKA_VERIF_POINT(342, this);
+#endif
             if (--predecessors_remaining == 0)
             {
                 if (!set_stopped_error_called)
